@@ -53,12 +53,13 @@ theorem generated_o_case_for_c13 : oPlace = .temp ∧ renameSrcTemp = true := by
 
 
 
+
 -- BEGIN PINS (written by bin/mkpins; do not edit by hand)
 /-- the Go functions this property's model and obligations were written against have exactly the
 pinned skeletons (SHA-256 prefix of the atom list) -/
 theorem pinned_skeletons_c13 :
     pinsOk
-    [("Scipipe.#decls", "7633eb8a74616d59"),
+    [("Scipipe.#decls", "08e57e98702ecd70"),
      ("Scipipe.FileIP_FinalizePath", "cf8179072e56c7ba"),
      ("Scipipe.FileIP_Open", "48d6413ed8457c06"),
      ("Scipipe.FileIP_OpenTemp", "673ff13758b5aa90"),
